@@ -27,6 +27,7 @@ type Profile struct {
 	CloseOps   bool
 	IOOps      bool
 	Names      []string
+	AltIds     bool // ids in every textual form uuid.FromString accepts, not only the canonical one
 	BigInts    bool
 	IdxPool    []string // fields CreateIndex chooses from
 	NoGenIds   bool     // never leave the _id to clover (several backends must store identical documents)
@@ -35,7 +36,7 @@ type Profile struct {
 var baseWeights = map[string]int{
 	"Insert": 14, "InsertOne": 4, "Save": 3, "ReplaceById": 4, "UpdateById": 6, "Update": 6, "UpdateFunc": 6,
 	"Delete": 3, "DeleteById": 4, "CreateIndex": 5, "DropIndex": 2, "CreateCollection": 3, "DropCollection": 1,
-	"FindAll": 14, "Derived": 8, "ForEach": 4, "Count": 3, "FindFirst": 2, "Exists": 1, "FindById": 3,
+	"FindAll": 14, "Derived": 8, "ForEach": 4, "IterateDocs": 2, "Count": 3, "FindFirst": 2, "Exists": 1, "FindById": 3,
 	"HasCollection": 1, "ListCollections": 1, "HasIndex": 1, "ListIndexes": 1,
 }
 
@@ -108,7 +109,9 @@ func NewGen(seed int64, p *Profile) *Gen {
 	}
 	n := p.MaxDocs
 	pool := append([]string{}, uuidPool...)
-	pool = append(pool, altUuidPool...)
+	if p.AltIds {
+		pool = append(pool, altUuidPool...)
+	}
 	for i := 0; len(pool) < n; i++ {
 		pool = append(pool, bulkId(i+1))
 	}
@@ -807,7 +810,7 @@ func (g *Gen) event(op string) E {
 			q = dropLimit0(q)
 		}
 		return E{"op": op, "c": c, "q": q}
-	case "ForEach":
+	case "ForEach", "IterateDocs":
 		return E{"op": op, "c": c, "q": g.query(false), "j": []int{0, 1, 2, 3, 100}[g.r.Intn(5)]}
 	case "Derived":
 		ids := make([]interface{}, 0)
